@@ -416,3 +416,23 @@ PROPS["C12"] = dict(
                "date-time values, time-zone offsets (chrono FixedOffset)", "AsRange earliest/latest (chrono NaiveDate/NaiveTime arithmetic)",
                "range texts A-B, A-, -B (parse_date_range / parse_time_range)", "encoded text length == reported length"],
 )
+
+# ----------------------------------------------------------------------- C14
+PROPS["C14"] = dict(
+    level="proof",
+    units=[
+        K("C14.tag_from_str", "ext", ["c14::c14_tag_from_str_len8", "c14::c14_tag_from_str_len11"],
+          "Tag::from_str on EVERY valid UTF-8 string of 8 and 11 bytes (all byte values symbolic): Ok(tag) <=> the string is "
+          "`ggggeeee` / `(gggg,eeee)` with hex digits in any letter case, and then tag is the one spelled; never panics",
+          fns=[("core/src/header.rs", "from_str", r"impl\s+FromStr\s+for\s+Tag"), ("core/src/header.rs", "parse_tag_part")],
+          timeout=900),
+        K("C14.tag_from_str_more", "ext",
+          ["c14::c14_tag_from_str_len9", "c14::c14_tag_from_str_len0", "c14::c14_tag_from_str_len7", "c14::c14_tag_from_str_len10",
+           "c14::c14_tag_from_str_len12"],
+          "the `gggg,eeee` form (9 bytes, all strings) and rejection of strings of 0, 7, 10 and 12 bytes", tier="thorough", timeout=900),
+    ],
+    assumptions=["strings of lengths other than 0, 7-12 are rejected by the first statement of from_str (`match s.len()`): argued from the code, not proved",
+                 "core::str::from_utf8 is compiled and checked by Kani (used to enumerate exactly the valid UTF-8 strings)"],
+    uncovered=["Display for Tag and the printed forms (fmt machinery)", "AttributeSelector text syntax and parse_selector",
+               "dictionary keyword resolution in selectors (HashMap)"],
+)
